@@ -12,7 +12,8 @@ FUNCTIONS = ["TypeGenerator::{create_composite_ir_kind, upcast_composite, add_as
 MODELS = c01.MODELS
 ASSUMPTIONS = ["registries: corpus (pallet-call style enums with compact, boxed, boxed-compact, option, array and tuple fields; all parameter-free items of the other corpus registries); array lengths and variant indices symbolic",
                "the standalone struct is built exactly as the public API allows: create_composite_ir_kind(fields, TypeParameters::from_scale_info(&[])) -> CompositeIR::new -> upcast_composite -> to_token_stream"]
-BOUNDS = {"quick": {"variants/structs": "every parameter-free item of the corpus, every variant", "settings": 4}, "thorough": {"settings": 6}}
+BOUNDS = {"quick": {"variants/structs": "every item without (non-skipped) parameters of 15 corpus registries, every variant", "settings": 4},
+          "thorough": {"variants/structs": "the same for every corpus registry, plus the call/event/error enums of up to 60 pallets of the polkadot metadata (closed sub-registries, every variant)", "settings": 6}}
 OUTSIDE = ["items with generic parameters (excluded by the statement)"]
 GLOBAL_WITNESSES = ("Ok",)
 
@@ -111,16 +112,31 @@ def make_family(name, reg0, st, ti, vi):
 
 def families(eng, tier, seed):
     C = corpus(); fams = []; sets = SETS if tier == "thorough" else SETS[:4]
-    for n in ("calls", "enum", "compact_enum", "compact", "containers", "collections", "compact_as", "reach", "bits", "rec", "single", "tup", "prims", "lookalikes_enum", "lookalikes"):
+    names = ("calls", "enum", "compact_enum", "compact", "containers", "collections", "compact_as", "reach", "bits", "rec", "single", "tup", "prims", "lookalikes_enum", "lookalikes")
+    if tier == "thorough": names = tuple(n for n in C if n not in ("empty_enum",))      # every corpus registry: all items emitted without generic parameters
+    for n in names:
         r = C[n]
         for ti in user_ids(r):
             t = r[ti]
-            if any(p is not None for _, p in t["params"]) or t["params"]: continue
+            if any(p is not None for _, p in t["params"]): continue          # skipped parameters do not make the generated item generic
             sites = [None] if t["def"][0] == "composite" else list(range(len(t["def"][1])))
             for vi in sites:
                 for si, st in enumerate(sets):
                     if tier == "quick" and n not in ("calls", "compact_as", "compact_enum") and si not in (0, 1): continue
                     fams.append(make_family("standalone-%s-%d.%s-s%d" % (n, ti, vi, si), r, st, ti, vi))
+    if tier == "thorough":
+        P = polkadot(); npal = 0
+        for i in user_ids(P):
+            t = P[i]
+            if t["def"][0] != "variant" or t["path"][-1] not in ("Call", "Event", "Error") or any(p is not None for _, p in t["params"]): continue
+            sub, mp = restrict(P, [i])
+            if not (3 <= len(sub) <= 200): continue
+            ni = mp[i] if isinstance(mp, dict) else mp.index(i) if i in mp else None
+            if ni is None or sub[ni]["path"] != t["path"]: continue
+            if len({tuple(u["path"]) for u in sub if u["path"]}) < sum(1 for u in sub if u["path"]): continue     # same-path entries need de-duplication first (C04)
+            for vi in range(len(sub[ni]["def"][1])): fams.append(make_family("standalone-polkadot-%s-%d.%d" % ("_".join(t["path"][-2:]), i, vi), sub, sets[0], ni, vi))
+            npal += 1
+            if npal >= 60: break
     return fams
 
 def confirm(v, real):
